@@ -42,6 +42,13 @@ func ruleC03(c *Ctx) {
 	checkMapOrder(c, "MAPORDER", fam)
 	checkNoShared(c, "NOSHARED", "Build and helpers", fam, map[string]string{})
 	writerLoopHazards(c, "FIELDMAP-W", fam)
+	// feature locations are part of the record: the location printer and parser rules of C02 are prerequisites
+	if bl, pl := c.W.fn("io/genbank", "BuildLocationString"), c.W.fn("io/genbank", "parseLocation"); bl != nil {
+		checkLocationPrinter(c, bl, pl)
+		if pl != nil {
+			checkLocationParser(c, pl)
+		}
+	}
 	// the returned bytes come from a buffer this call allocated
 	{
 		tb := newTB(build)
